@@ -149,6 +149,11 @@ CURATED_CONC = {
                                                                           [{"k": "step"}]]}, {"k": "wait"}]},
     "m09_empty": {"nodes": [{"k": "map", "caught": True, "branches": []}, {"k": "step"}]},
     "m10_empty_maxc": {"nodes": [{"k": "par", "caught": True, "maxc": 2, "branches": []}, {"k": "step"}]},
+    "m12_park_then_decide": {"nodes": [{"k": "par", "cfg": {"min": 1}, "branches": [[{"k": "cb", "between": []}], [{"k": "step", "dur": 0.3}]]}, {"k": "step"}]},
+    "m13_park_then_finish": {"nodes": [{"k": "par", "branches": [[{"k": "cb", "between": []}], [{"k": "step", "dur": 0.3}]]}, {"k": "step"}]},
+    "m14_park_then_fail": {"nodes": [{"k": "map", "caught": True, "braise": [1], "branches": [[{"k": "wait", "s": 3600}], [{"k": "step", "dur": 0.3}]]}]},
+    "m15_timed_and_indef": {"nodes": [{"k": "par", "branches": [[{"k": "wait", "s": 1}, {"k": "step"}], [{"k": "cb", "between": []}],
+                                                              [{"k": "step", "fail": 1, "max": 2, "dur": 0.3}]]}]},
     "m11_tolerance": {"nodes": [{"k": "map", "caught": True, "cfg": {"tolc": 1}, "braise": [0, 2], "branches": [[], [{"k": "step", "dur": 0.3}], [], [{"k": "step"}]]}]},
 }
 
@@ -297,6 +302,37 @@ def c09(ctx, e):
                 if worst > maxc:
                     ctx.violation("concurrency-limit-exceeded", f"{path}: {worst} branches at once, limit {maxc}", scen_of(e))
                     return
+
+
+def c09_decided_but_suspended(ctx, e):
+    """the call must return when its policy is decided: an invocation must not end PENDING while the recorded branch outcomes
+    already decide the completion policy of a map/parallel that has not delivered yet"""
+    nodes = node_index(e.prog)
+    for path, node in nodes.items():
+        if node.get("k") not in ("map", "par") or "/" in path:
+            continue
+        n = len(node["branches"])
+        if n == 0:
+            continue
+        cfg = cfg_of(node)
+        first_delivery_inv = e.rec.delivered.get(path, [(10 ** 9,)])[0][0]
+        for r in e.invocations:
+            if r.outcome != "PENDING" or r.inv >= first_delivery_inv:
+                continue
+            s = f = 0
+            started_map = any(u["id"] == path_id(path) for u in e.backend.stream if u["inv"] <= r.inv)
+            if not started_map:
+                continue
+            for bi in range(n):
+                bid = path_id(f"{path}/b{bi}")
+                acts = [u["action"] for u in e.backend.stream if u["id"] == bid and u["inv"] <= r.inv]
+                s += "SUCCEED" in acts
+                f += "FAIL" in acts
+            if should_complete(cfg, n, s, f):
+                ctx.violation("suspended-although-decided",
+                              f"invocation {r.inv} returned PENDING although {path} was decided ({s} succeeded, {f} failed of {n}, {cfg})",
+                              scen_of(e))
+                return
 
 
 def ancestors(path):
